@@ -728,7 +728,7 @@ fn c08_cases(quick: bool) -> Vec<Case> {
     let mut out = vec![];
     let nclauses = if quick { 2 } else { 3 };
     for n in 1..=nclauses {
-        let hsel: Vec<(Script, Enc)> = if n == 3 { heads.iter().take(7).cloned().chain(heads.iter().skip(9).take(2).cloned()).collect() } else { heads.clone() };
+        let hsel: Vec<(Script, Enc)> = if n == 3 { heads.iter().take(9).cloned().chain(heads.iter().skip(9).take(3).cloned()).collect() } else { heads.clone() };
         let rsel: Vec<(Script, Enc)> = if n == 3 { rests.iter().take(3).cloned().collect() } else { rests.clone() };
         for hs in product(&hsel, n) {
             for rs in product(&rsel, n) {
